@@ -49,6 +49,16 @@ Theorem C17_binding_accepted : forall cs pos kw b,
 Proof. exact set_input_values_accepted. Qed.
 Print Assumptions C17_binding_accepted.
 
+(* As the code is (not part of the property): a failure other than ValueError comes from the
+   assignment loop -- a hint rejection -- and leaves the keys before the failing one assigned,
+   keywords first, then the positional ones. *)
+Theorem C17_binding_hint_rejection_as_is : forall cs pos kw cs' e,
+  set_input_values cs pos kw = (cs', Some e) -> e <> ValueErr ->
+  exists done k v rest, kw ++ combine (labels cs) pos = done ++ (k, v) :: rest /\
+    assign_all cs done = (cs', None) /\ assign1 cs' k v = Err e.
+Proof. exact set_input_values_partial. Qed.
+Print Assumptions C17_binding_hint_rejection_as_is.
+
 (* ---- outputs ---------------------------------------------------------------------- *)
 (* With validation on, an accepted definition has exactly the declared labels, else the
    labels scraped from its single return statement ("None" when nothing is returned); declared
@@ -230,6 +240,25 @@ Proof.
   eexists. eexists. eexists. vm_compute. repeat split; reflexivity.
 Qed.
 Print Assumptions C17_list_to_outputs_refuted_length.
+
+(* inputs_to_dataframe(n), ALL n, ALL key lists, ALL tables: when the rows are dicts over the
+   same keys in the same order, the node computes the transposition (column k = the k-cells of
+   the rows, in row order; no rows: the empty frame) and stores it in `df`.
+   PARTIAL: guard = uniform rows (ragged rows raise KeyError/ValueError in the loop or in pandas;
+   rows with permuted keys are covered by the correspondence check only). *)
+Theorem C17_inputs_to_dataframe_partial : forall sem ins ks table,
+  NoDup ks -> Forall (fun vs => List.length vs = List.length ks) table ->
+  map c_value ins = map (row_of ks) table ->
+  on_run sem RunToFrame ins = Ok (frame_of ks table).
+Proof. exact frame_on_run. Qed.
+Print Assumptions C17_inputs_to_dataframe_partial.
+
+Theorem C17_inputs_to_dataframe_store : forall c ks table,
+  chan_sig c = ("df", Some (HAtoms [ACls "DataFrame"])) ->
+  process_run_result (KFromMany "df") [c] (frame_of ks table) =
+    (expected_out [("df", Some (HAtoms [ACls "DataFrame"]))] (frame_of ks table), Ok (frame_of ks table)).
+Proof. exact frame_store. Qed.
+Print Assumptions C17_inputs_to_dataframe_store.
 
 (* ---- the public constructor functions ------------------------------------------------ *)
 (* PARTIAL: without positional node values the constructor functions are the class call. *)
